@@ -14,17 +14,18 @@ EXTENDS SeqToken, TLC, FiniteSets
 CONSTANTS Universe,     \* tokens that may be notified
           MaxSteps,     \* bound on the length of a behaviour
           Thresholds,   \* compaction thresholds explored (expectedSeqCompactionThreshold)
-          FeedModes     \* subset of BOOLEAN: is the environment assumption FeedOrdered in force
+          FeedModes,    \* subset of BOOLEAN: TRUE = the environment only expects tokens in feed order
+          MaxBatch      \* longest batch of one Expect / AlreadyKnown call
 
 None == [l |-> -1, t |-> -1, s |-> -1]
 
 VARIABLES expected, processed, ret,                 \* implementation: expectedSeqs, processedSeqs, value returned by the last tick
-          threshold, feedOrdered,                   \* configuration of this behaviour
+          threshold, restrict, feedOrdered,         \* configuration of this behaviour; ghost: inputs were in feed order so far
           everExp, everProc, ckpts, shE, shP, shRet, \* ghosts: history, persisted values, uncompacted shadow
           dupFree,                                   \* ghost: no token has been expected twice so far
           hist                                       \* behaviour so far (exported for replay; hidden by VIEW)
 impl   == <<expected, processed, ret>>
-ghost  == <<threshold, feedOrdered, everExp, everProc, ckpts, shE, shP, shRet, dupFree>>
+ghost  == <<threshold, restrict, feedOrdered, everExp, everProc, ckpts, shE, shP, shRet, dupFree>>
 vars   == <<impl, ghost, hist>>
 view   == <<impl, ghost>>
 
@@ -37,7 +38,8 @@ RECURSIVE SortedOf(_)
 SortedOf(sq) ==
   IF sq = <<>> THEN {<<>>}
   ELSE UNION { {<<sq[i]>> \o r : r \in SortedOf(RemoveAt(sq, i))} :
-               i \in {i \in 1..Len(sq) : \A j \in 1..Len(sq) : ~Before(sq[j], sq[i])} }
+               i \in {i \in 1..Len(sq) : /\ \A j \in 1..Len(sq) : ~Before(sq[j], sq[i])
+                                          /\ \A k \in 1..(i - 1) : sq[k] # sq[i]} }   \* equal values: first occurrence only
 
 (* _calculateSafeExpectedSeqsIdx on a sorted list (1-based; 0 = none) *)
 SafeIdx(p, P) ==
@@ -61,27 +63,35 @@ Cmp(E, P, i) ==
 
 Compact(E, P, th) == IF Len(E) > th THEN Cmp(E, P, Len(E) - 1) ELSE [E |-> E, P |-> P]
 
-FeedOK(s) == feedOrdered => \A e \in everExp : ~Before(s, e)
+(* feedOrdered is a ghost: TRUE as long as no token was expected that is Before an earlier expected one
+   (the source lists changes in order).  restrict = the environment is constrained to keep it TRUE. *)
+OrderedAfter(ts) ==
+  /\ \A i \in 1..Len(ts) : \A e \in everExp : ~Before(ts[i], e)
+  /\ \A i, j \in 1..Len(ts) : i < j => ~Before(ts[j], ts[i])
+FeedOK(ts) == restrict => OrderedAfter(ts)
+Batches == UNION {[1..n -> Universe] : n \in 1..MaxBatch}
 
 -----------------------------------------------------------------------------
 Init ==
   /\ expected = <<>> /\ processed = {} /\ ret = None
-  /\ threshold \in Thresholds /\ feedOrdered \in FeedModes
+  /\ threshold \in Thresholds /\ restrict \in FeedModes /\ feedOrdered = TRUE
   /\ everExp = {} /\ everProc = {} /\ ckpts = <<>> /\ shE = <<>> /\ shP = {} /\ shRet = None /\ dupFree = TRUE
   /\ hist = <<>>
 
-ImplExpect(s)       == expected' = Append(expected, s) /\ processed' = processed /\ ret' = None
-GhostExpect(s)      == /\ everExp' = everExp \cup {s} /\ shE' = Append(shE, s) /\ shRet' = None
-                       /\ dupFree' = (dupFree /\ s \notin everExp)
-                       /\ UNCHANGED <<threshold, feedOrdered, everProc, ckpts, shP>>
-ImplAlreadyKnown(s) == expected' = Append(expected, s) /\ processed' = processed \cup {s} /\ ret' = None
-GhostAlreadyKnown(s) == /\ everExp' = everExp \cup {s} /\ everProc' = everProc \cup {s}
-                        /\ shE' = Append(shE, s) /\ shP' = shP \cup {s} /\ shRet' = None
-                        /\ dupFree' = (dupFree /\ s \notin everExp)
-                        /\ UNCHANGED <<threshold, feedOrdered, ckpts>>
+ImplExpect(ts)       == expected' = expected \o ts /\ processed' = processed /\ ret' = None
+GhostExpect(ts)      == /\ everExp' = everExp \cup Range(ts) /\ shE' = shE \o ts /\ shRet' = None
+                        /\ dupFree' = (dupFree /\ Range(ts) \cap everExp = {} /\ Cardinality(Range(ts)) = Len(ts))
+                        /\ feedOrdered' = (feedOrdered /\ OrderedAfter(ts))
+                        /\ UNCHANGED <<threshold, restrict, everProc, ckpts, shP>>
+ImplAlreadyKnown(ts) == expected' = expected \o ts /\ processed' = processed \cup Range(ts) /\ ret' = None
+GhostAlreadyKnown(ts) == /\ everExp' = everExp \cup Range(ts) /\ everProc' = everProc \cup Range(ts)
+                         /\ shE' = shE \o ts /\ shP' = shP \cup Range(ts) /\ shRet' = None
+                         /\ dupFree' = (dupFree /\ Range(ts) \cap everExp = {} /\ Cardinality(Range(ts)) = Len(ts))
+                         /\ feedOrdered' = (feedOrdered /\ OrderedAfter(ts))
+                         /\ UNCHANGED <<threshold, restrict, ckpts>>
 ImplProcessed(s)    == processed' = processed \cup {s} /\ expected' = expected /\ ret' = None
 GhostProcessed(s)   == /\ everProc' = everProc \cup {s} /\ shP' = shP \cup {s} /\ shRet' = None
-                       /\ UNCHANGED <<threshold, feedOrdered, everExp, ckpts, shE, dupFree>>
+                       /\ UNCHANGED <<threshold, restrict, feedOrdered, everExp, ckpts, shE, dupFree>>
 ImplTick ==
   \E p \in SortedOf(expected) :
     LET r == Trim(p, processed)
@@ -91,18 +101,19 @@ GhostTick ==           \* refers to ret' (already determined by ImplTick or by t
   /\ ckpts' = IF ret' # None THEN Append(ckpts, ret') ELSE ckpts
   /\ \E q \in SortedOf(shE) :
        LET r == Trim(q, shP) IN shE' = r.E /\ shP' = r.P /\ shRet' = r.ret
-  /\ UNCHANGED <<threshold, feedOrdered, everExp, everProc, dupFree>>
+  /\ UNCHANGED <<threshold, restrict, feedOrdered, everExp, everProc, dupFree>>
 
-Step(a, s) == hist' = Append(hist, [a |-> a, tok |-> s])
+Step(a, ts) == hist' = Append(hist, [a |-> a, toks |-> ts])
 
-Expect(s)       == FeedOK(s) /\ ImplExpect(s) /\ GhostExpect(s) /\ Step("Expect", s)
-AlreadyKnown(s) == FeedOK(s) /\ ImplAlreadyKnown(s) /\ GhostAlreadyKnown(s) /\ Step("AlreadyKnown", s)
-Processed(s)    == ImplProcessed(s) /\ GhostProcessed(s) /\ Step("Processed", s)
-Tick            == ImplTick /\ GhostTick /\ Step("Tick", None)
+Expect(ts)       == FeedOK(ts) /\ ImplExpect(ts) /\ GhostExpect(ts) /\ Step("Expect", ts)
+AlreadyKnown(ts) == FeedOK(ts) /\ ImplAlreadyKnown(ts) /\ GhostAlreadyKnown(ts) /\ Step("AlreadyKnown", ts)
+Processed(s)     == ImplProcessed(s) /\ GhostProcessed(s) /\ Step("Processed", <<s>>)
+Tick             == ImplTick /\ GhostTick /\ Step("Tick", <<>>)
 
 Next ==
   /\ Len(hist) < MaxSteps
-  /\ \/ \E s \in Universe : Expect(s) \/ AlreadyKnown(s) \/ Processed(s)
+  /\ \/ \E ts \in Batches : Expect(ts) \/ AlreadyKnown(ts)
+     \/ \E s \in Universe : Processed(s)
      \/ Tick
 Spec == Init /\ [][Next]_vars
 
